@@ -6,8 +6,10 @@ package main
 
 import (
 	"context"
+	"encoding/json"
 	"errors"
 	"fmt"
+	"os"
 	"runtime"
 	"sort"
 	"strings"
@@ -171,6 +173,9 @@ var sharedSpanCtx = trace.ContextWithSpanContext(context.Background(), trace.New
 
 var forceTrickle bool
 
+// curFile: where the plan of the run being executed is left (removed when the harness ends normally)
+var curFile string
+
 func genPlan(r *Rng, focus string) *runPlan {
 	p := &runPlan{Seed: r.U64()}
 	p.SharedSpan = r.Chance(35)
@@ -301,12 +306,34 @@ func genPlan(r *Rng, focus string) *runPlan {
 			id++
 		}
 	}
+	// backlog mode: early_return, one export at a time, slow exports, callers whose contexts end while their
+	// (already acknowledged) requests are still queued in front of the shard
+	backlog := (focus == "C05" || focus == "C06" || focus == "C11") && !p.Trickle && r.Chance(35)
+	if backlog {
+		c.Early = true
+		c.MaxConc = 1
+		if c.SendSize == 0 || c.SendSize > 3 {
+			c.SendSize = 2
+			if c.MaxSize != 0 && c.MaxSize < c.SendSize {
+				c.MaxSize = c.SendSize
+			}
+		}
+		for _, rp := range p.Reqs {
+			rp.DelayUs = r.Intn(300)
+			if r.Bool() && !shareCtx {
+				rp.CancelUs = 200 + r.Intn(4000)
+			}
+		}
+	}
 	nExp := 4 * len(p.Reqs) * 8
 	for i := 0; i < nExp; i++ {
 		p.Fail = append(p.Fail, r.Chance(failPct))
 		lat := 0
 		if r.Chance(60) {
 			lat = r.Intn(3000)
+		}
+		if backlog {
+			lat = 2000 + r.Intn(4000)
 		}
 		p.LatUs = append(p.LatUs, lat)
 	}
@@ -670,6 +697,13 @@ func validate(res *runResult, out *Output, run int, stats map[string]int) {
 	for _, rp := range p.Reqs {
 		for _, it := range rp.flat {
 			owner[it.ID] = rp.ID
+		}
+	}
+	// a call that returned nil before Shutdown was called has been accepted, whether or not a shard has
+	// taken the request off its channel yet (early_return acknowledges on queueing)
+	for _, rp := range p.Reqs {
+		if rp.returned && !rp.skipped && rp.err == nil && rp.Items > 0 && rp.end != 0 && rp.end < res.shutStart && !accepted[rp.ID] && res.hang == "" {
+			c.fail("C05", "acknowledged-request-dropped", fmt.Sprintf("request %d (%d items) was acknowledged with nil before Shutdown was called but never reached a shard: its items are lost (early_return=%v, context cancelled=%v)", rp.ID, rp.Items, p.Cfg.Early, rp.CancelUs >= 0))
 		}
 	}
 	exportsOf := map[int]map[int]bool{}
@@ -1520,6 +1554,12 @@ Definition e2e_cases : list e2e_t := [
 	for i := 0; i < n; i++ {
 		forceTrickle = focus == "C09" && i%20 == 7
 		p := genPlan(r.Fork(), focus)
+		if curFile != "" {
+			// a crash of the code under test takes the process down: leave the plan behind for the report
+			if b, err := json.Marshal(map[string]any{"run": i, "focus": focus, "plan": p}); err == nil {
+				_ = os.WriteFile(curFile, b, 0o644)
+			}
+		}
 		res := execPlan(p)
 		before := len(out.Violations)
 		validate(res, out, i, stats)
